@@ -261,7 +261,8 @@ class State:
         s = z3.Solver()
         s.set('timeout', self.feas_timeout_ms)
         for a in self.all_axioms():
-            s.add(a)
+            if not _has_quant(a):
+                s.add(a)
         s.add(chosen)
         s.add(extra)
         self.solver_calls += 1
